@@ -625,6 +625,18 @@ func init() {
 		m.mapDelete(m.syncMap(a[0].(*Value)), a[1])
 		return nil
 	}
+	I["(*sync.Map).Range"] = func(m *Machine, fr *frame, pos token.Pos, _ *ssa.Function, a []Value) Value {
+		mp := m.syncMap(a[0].(*Value))
+		keys := append([]Value(nil), mp.Keys...)
+		vals := append([]Value(nil), mp.Vals...)
+		for i := range keys {
+			r := m.call(fr, pos, a[1], []Value{keys[i], vals[i]})
+			if !m.branch(r.(*sym.Term)) {
+				break
+			}
+		}
+		return nil
+	}
 
 	// --- sync/atomic ---
 	load := func(m *Machine, _ *frame, _ token.Pos, _ *ssa.Function, a []Value) Value {
